@@ -168,29 +168,25 @@ Proof. intros ->. reflexivity. Qed.
 (* hash_script_data hashes the ledger's preimage over the witness set emitted for the same redeemers and datums;
    stated for both values of both switches, the classes are needed only for the value `true` (code as found) *)
 Theorem preimage_spec_gen (cd eh : bool) r cm d :
-  helper_out_of_scope r cm d = false ->
+  helper_out_of_scope r d = false ->
   (cd = true -> known_dup_definite d = false) ->
   (eh = true -> known_empty_datums d = false) ->
   let fs := ws_fields (helper_witness_set r d) in
   script_data_preimage_gen cd eh r cm d =
-  ledger_preimage (assoc_field 5 fs) (assoc_field 4 fs) (spec_views (cm_keys cm) cm).
+  ledger_preimage (assoc_field 5 fs) (assoc_field 4 fs) (spec_views (helper_langs r cm) cm).
 Proof.
   intros Hscope Hcd Heh fs. subst fs.
-  unfold script_data_preimage_gen, helper_witness_set, helper_out_of_scope in *.
+  unfold script_data_preimage_gen, helper_witness_set, helper_out_of_scope, helper_langs in *.
   rewrite views_model_spec.
   destruct r as [rl rf]. cbn [rs_list rs_format] in *.
-  (* normalise the datum argument *)
   destruct d as [[de dd]|].
   - destruct de as [|d0 dt].
-    + (* Some(empty) *)
+    + (* Some(empty): there must be a redeemer *)
       destruct eh; [specialize (Heh eq_refl); discriminate|].
+      destruct rl as [|r0 rt]; [discriminate|].
       cbn [datums_for_hash_gen pl_elems is_nil set_plutus_data set_redeemers ws_new ws_plutus_scripts ws_plutus_data ws_redeemers].
-      destruct rl as [|r0 rt].
-      * cbn [is_nil andb] in Hscope. apply orb_false_iff in Hscope as [Hf _].
-        unfold ws_fields. cbn [ws_plutus_scripts ws_plutus_data ws_redeemers rs_list is_nil app assoc_field ledger_preimage].
-        rewrite redeemers_bytes_empty_map; [reflexivity|reflexivity|cbn [rs_format]; destruct rf as [[|]|]; congruence].
-      * unfold ws_fields. cbn [ws_plutus_scripts ws_plutus_data ws_redeemers rs_list is_nil app assoc_field ledger_preimage N.eqb].
-        reflexivity.
+      unfold ws_fields. cbn [ws_plutus_scripts ws_plutus_data ws_redeemers rs_list is_nil app assoc_field ledger_preimage N.eqb].
+      reflexivity.
     + (* Some(non-empty) *)
       assert (Hd : datums_for_hash_gen eh (Some (mk_plist (d0 :: dt) dd)) = Some (mk_plist (d0 :: dt) dd)) by (destruct eh; reflexivity).
       rewrite Hd.
@@ -201,30 +197,25 @@ Proof.
       unfold ws_fields. cbn [ws_plutus_scripts ws_plutus_data ws_redeemers pl_deduplicated_clone pl_elems].
       assert (Hne : is_nil (dedup_written (d0 :: dt)) = false) by reflexivity. rewrite Hne.
       destruct rl as [|r0 rt].
-      * cbn [is_nil andb is_some negb orb] in Hscope. apply orb_false_iff in Hscope as [_ Hk].
-        destruct (cm_keys cm) eqn:Ek; [|discriminate].
-        cbn [rs_list is_nil app assoc_field ledger_preimage N.eqb]. rewrite Hset. reflexivity.
       * cbn [rs_list is_nil app assoc_field ledger_preimage N.eqb]. rewrite Hset. reflexivity.
-  - cbn [datums_for_hash_gen set_redeemers ws_new ws_plutus_scripts ws_plutus_data ws_redeemers].
-    destruct rl as [|r0 rt].
-    + cbn [is_nil andb] in Hscope. apply orb_false_iff in Hscope as [Hf _].
-      unfold ws_fields. cbn [ws_plutus_scripts ws_plutus_data ws_redeemers rs_list is_nil app assoc_field ledger_preimage].
-      rewrite redeemers_bytes_empty_map; [reflexivity|reflexivity|cbn [rs_format]; destruct rf as [[|]|]; congruence].
-    + unfold ws_fields. cbn [ws_plutus_scripts ws_plutus_data ws_redeemers rs_list is_nil app assoc_field ledger_preimage N.eqb].
-      reflexivity.
+      * cbn [rs_list is_nil app assoc_field ledger_preimage N.eqb]. rewrite Hset. reflexivity.
+  - destruct rl as [|r0 rt]; [discriminate|].
+    cbn [datums_for_hash_gen set_redeemers ws_new ws_plutus_scripts ws_plutus_data ws_redeemers].
+    unfold ws_fields. cbn [ws_plutus_scripts ws_plutus_data ws_redeemers rs_list is_nil app assoc_field ledger_preimage N.eqb].
+    reflexivity.
 Qed.
 
 (* the statement for the code as it stands (the two switches of ScriptData.v) *)
 Theorem preimage_spec r cm d :
-  helper_out_of_scope r cm d = false ->
+  helper_out_of_scope r d = false ->
   (set_len_counts_duplicates = true -> known_dup_definite d = false) ->
   (empty_datums_hashed = true -> known_empty_datums d = false) ->
   let fs := ws_fields (helper_witness_set r d) in
   script_data_preimage r cm d =
-  ledger_preimage (assoc_field 5 fs) (assoc_field 4 fs) (spec_views (cm_keys cm) cm).
+  ledger_preimage (assoc_field 5 fs) (assoc_field 4 fs) (spec_views (helper_langs r cm) cm).
 Proof. apply preimage_spec_gen. Qed.
 
-(* inside the out-of-scope class the helper follows the CDDL note literally: A0 | datums | A0 *)
+(* datums without redeemers: the CDDL note literally, A0 | datums | A0, whatever table is handed over *)
 Lemma preimage_cddl_note cd r cm l :
   rs_list r = [] -> pl_elems l <> [] ->
   script_data_preimage_gen cd false r cm (Some l) = [160] ++ serialize_as_set_gen cd true l ++ [160].
@@ -240,9 +231,9 @@ Definition one_redeemer : redeemers := mk_redeemers [mk_redeemer 0 0 (mk_pdata 1
 
 Theorem preimage_refuted_dup_length :
   let fs := ws_fields (helper_witness_set one_redeemer (Some dup_witness_list)) in
-  helper_out_of_scope one_redeemer cm_empty (Some dup_witness_list) = false /\
+  helper_out_of_scope one_redeemer (Some dup_witness_list) = false /\
   script_data_preimage_gen true true one_redeemer cm_empty (Some dup_witness_list) <>
-  ledger_preimage (assoc_field 5 fs) (assoc_field 4 fs) (spec_views (cm_keys cm_empty) cm_empty) /\
+  ledger_preimage (assoc_field 5 fs) (assoc_field 4 fs) (spec_views (helper_langs one_redeemer cm_empty) cm_empty) /\
   (* the hashed datum part announces two elements and holds one: d9 0102 82 18 2a *)
   serialize_as_set_gen true true dup_witness_list = [217; 1; 2; 130; 24; 42] /\
   assoc_field 4 fs = Some [217; 1; 2; 129; 24; 42].
@@ -251,9 +242,9 @@ Proof. repeat split; try reflexivity. vm_compute. discriminate. Qed.
 Theorem preimage_refuted_empty_datums :
   let d := Some pl_new in
   let fs := ws_fields (helper_witness_set one_redeemer d) in
-  helper_out_of_scope one_redeemer cm_empty d = false /\
+  helper_out_of_scope one_redeemer d = false /\
   script_data_preimage_gen false true one_redeemer cm_empty d <>
-  ledger_preimage (assoc_field 5 fs) (assoc_field 4 fs) (spec_views (cm_keys cm_empty) cm_empty) /\
+  ledger_preimage (assoc_field 5 fs) (assoc_field 4 fs) (spec_views (helper_langs one_redeemer cm_empty) cm_empty) /\
   assoc_field 4 fs = None.
 Proof. repeat split; try reflexivity. vm_compute. discriminate. Qed.
 
